@@ -447,7 +447,7 @@ func (c20) Execute(env *kernel.Env, raw json.RawMessage, ch *kernel.Choices) *ke
 
 	ncallers := len(p.Callers)
 	if ncallers >= 2 {
-		out.Keys = append(out.Keys, schedule.String(), "interleaving:"+schedule.String(), "world:"+worldKey(&p))
+		out.Keys = append(out.Keys, schedule.String(), "@interleaving:"+schedule.String(), "@world:"+worldKey(&p))
 	}
 	if len(out.Keys) > 0 && strings.Count(schedule.String(), "switch") > ncallers+1 {
 		out.Probe("preempted_mid_request")
